@@ -115,6 +115,12 @@ theorem version_absent (debug : Bool) (h : Run.Outcome) (render : Run.Exc → Bo
 without `--`; the option tokens of ANY token list are such a list, and every token list is its
 option tokens followed (if at all) by `--` and a tail (`Props.C08.option_tokens_split`). -/
 
+/-- **`--` as the very first token** (zero tokens before the separator): nothing on the line is a switch - the I/O
+configuration and the help listener's decision are those of the empty line, whatever follows. -/
+theorem io_dashes_first (tail : List Str) (debug : Bool) :
+    createIO (['-', '-'] :: tail) debug = createIO [] debug ∧ helpSwitch (['-', '-'] :: tail) = helpSwitch [] :=
+  ⟨io_after_dashes [] tail debug (by simp), help_after_dashes [] tail (by simp)⟩
+
 /-- **Only the option tokens matter**, for every token list: the I/O configuration and the help
 switch of a line are those of its tokens before the first `--`. -/
 theorem io_only_option_tokens (ts : List Str) (debug : Bool) :
